@@ -117,15 +117,16 @@ def _model(tyq):
     return w["models"][tyq]
 
 
-def _mk(parent_tag, ctx, parser_parent=True):
-    """parent element of the registered class with empty context children."""
+def _mk(parent_tag, ctx, parser_parent=True, foreign_prefixes=False):
+    """parent element of the registered class with empty context children. `foreign_prefixes`: the document binds
+    the namespaces to prefixes of its own (ns0, ns1 ... as JAXB-style writers do) instead of a: / p: / c:."""
     from pptx.oxml import parse_xml
     w = _world()
     uri, local = parent_tag
     nsdecl = {}
     def pfx(u):
         if u not in nsdecl:
-            nsdecl[u] = w["pf"].get(u) or "n%d" % len(nsdecl)
+            nsdecl[u] = ("ns%d" % len(nsdecl)) if foreign_prefixes else (w["pf"].get(u) or "n%d" % len(nsdecl))
         return nsdecl[u]
     inner = "".join("<%s:%s/>" % (pfx(c[0]), c[1]) for c in ctx)
     root = "%s:%s" % (pfx(uri), local)
@@ -213,10 +214,14 @@ def enumerate_cases(tier):
                 q = (w["uris"].get(pfx), l)
                 if q not in model.codes:
                     continue
-                for ctx in _contexts(model, q, tier):
+                for ci, ctx in enumerate(_contexts(model, q, tier)):
                     for m in sorted(info["methods"]):
                         yield {"parent": [uri, local], "type": list(ty), "child": [q[0], q[1]],
                                "method": m, "ctx": [list(c) for c in ctx]}
+                        if ctx and ci % 5 == 0:
+                            # the same case in a document that binds the namespaces to prefixes of its own
+                            yield {"parent": [uri, local], "type": list(ty), "child": [q[0], q[1]],
+                                   "method": m, "ctx": [list(c) for c in ctx], "foreign_prefixes": True}
 
 
 # ------------------------------------------------------------------------- oracle (part A)
@@ -263,7 +268,7 @@ def check_case(case, rec=None):
     else:
         if not model.admits_somewhere_strict(ctx, q):
             return "n/a"
-    parent = _mk(parent_tag, ctx)
+    parent = _mk(parent_tag, ctx, foreign_prefixes=bool(case.get("foreign_prefixes")))
     before = _seq(parent)
     try:
         if m.startswith("_insert_"):
@@ -445,6 +450,12 @@ def adder_cases(tier):
         for ctx in ("none", "bgPr-noFill", "bgPr-solid", "bgRef", "bgRef-bwMode"):
             for ad in ("background_fill_access", "background_fill_solid", "background_fill_none"):
                 yield {"b": "bg", "host": host, "ctx": ctx, "adder": ad}
+    # "get or add" through the boolean has_* setters: assigned True twice (the second time on the still empty element)
+    for prop in ("chart.has_legend", "chart.has_title", "category_axis.has_title", "value_axis.has_title",
+                 "value_axis.has_major_gridlines", "category_axis.has_minor_gridlines", "plot.has_data_labels",
+                 "chart_title.has_text_frame", "axis_title.has_text_frame"):
+        for reopen in (False, True):
+            yield {"b": "twice", "prop": prop, "reopen": reopen, "adder": "twice:" + prop, "ctx": [prop]}
     # chart / axis titles whose text is linked to a worksheet cell (c:tx/c:strRef, as PowerPoint and Excel write it)
     for which in ("chart", "category_axis", "value_axis"):
         for ad in ("text_frame", "has_text_frame_true", "has_text_frame_false", "text"):
@@ -615,6 +626,54 @@ def check_adder(case):
         after = _seq(body)
         if not model.accepts(after):
             raise Violation(key + ":order", "%s on <p:txBody> [%s] gave [%s]" % (case["adder"], _fmt(before), _fmt(after)))
+        return "ok"
+    if b == "twice":
+        import io as _io
+        from pptx import Presentation as _P
+        from pptx.chart.data import CategoryChartData
+        from pptx.enum.chart import XL_CHART_TYPE
+        NS_C = "http://schemas.openxmlformats.org/drawingml/2006/chart"
+        cd = CategoryChartData()
+        cd.categories = ["a", "b"]
+        cd.add_series("s", (1, 2))
+        slide.shapes.add_chart(XL_CHART_TYPE.COLUMN_CLUSTERED, 0, 0, 3000000, 2000000, cd)
+        owner_path, prop = case["prop"].split(".")
+
+        def owner(p_):
+            ch = [sh for sh in p_.slides[0].shapes if getattr(sh, "has_chart", False)][-1].chart
+            if owner_path == "chart":
+                return ch
+            if owner_path == "plot":
+                return ch.plots[0]
+            if owner_path == "chart_title":
+                ch.has_title = True
+                return ch.chart_title
+            if owner_path == "axis_title":
+                ch.value_axis.has_title = True
+                return ch.value_axis.axis_title
+            return getattr(ch, owner_path)
+        try:
+            setattr(owner(prs), prop, False)
+            setattr(owner(prs), prop, True)
+            cur = prs
+            if case["reopen"]:
+                buf = _io.BytesIO()
+                prs.save(buf)
+                cur = _P(_io.BytesIO(buf.getvalue()))
+            setattr(owner(cur), prop, True)
+        except Exception as e:
+            raise Violation(key + ":raises=%s" % type(e).__name__, "%s = True twice raised %r" % (case["prop"], e))
+        cs = [sh for sh in cur.slides[0].shapes if getattr(sh, "has_chart", False)][-1].chart._chartSpace
+        for el in cs.iter():
+            if not isinstance(el.tag, str):
+                continue
+            q = etree.QName(el)
+            ty = {"chart": "CT_Chart", "valAx": "CT_ValAx", "catAx": "CT_CatAx", "barChart": "CT_BarChart",
+                  "title": "CT_Title", "tx": "CT_Tx", "plotArea": "CT_PlotArea", "legend": "CT_Legend"}.get(q.localname)
+            if q.namespace == NS_C and ty and not _model((NS_C, ty)).accepts(_seq(el)):
+                raise Violation(key + ":count", "%s = True assigned twice%s gave <c:%s> [%s]"
+                                % (case["prop"], " (re-opened in between)" if case["reopen"] else "", q.localname,
+                                   _fmt(_seq(el))))
         return "ok"
     if b == "title":
         NS_C = "http://schemas.openxmlformats.org/drawingml/2006/chart"
